@@ -4,7 +4,8 @@
    as that body. *)
 From Soy Require Import Model.Bytes Model.Outcome Model.Ast Model.Token Model.RawText Model.ExprParser Model.Parser Generated.Tables
   Spec.ExprSyntax Spec.CmdSyntax Proofs.ExprParserRules Proofs.ExprParserProofs Proofs.CmdRoundtripBase Proofs.CmdRoundtripRules
-  Proofs.CmdRoundtripPrint.
+  Proofs.CmdRoundtripPrint Proofs.CmdRoundtripSwitch Proofs.CmdRoundtripCall Proofs.CmdRoundtripMsg.
+From Soy Require Import Model.AstPrint Model.AstPrintCmd.
 From Coq Require Import Lia.
 Open Scope N_scope.
 
@@ -17,35 +18,147 @@ Fixpoint if_toks (p : N) (first : bool) (l : list node) : list tok :=
   | NIfCond _ None x :: r => [T_ldelim; kw pit_Else 0; T_rdelim] ++ body_toks x ++ if_toks p false r
   | _ :: r => if_toks p false r
   end.
-Fixpoint wf_conds (p : N) (first : bool) (l : list node) : Prop :=
+Fixpoint sw_toks (l : list node) : list tok :=
+  match l with
+  | [] => []
+  | NSwitchCase q vals x :: r =>
+      (match vals with
+       | [] => [T_ldelim; kw pit_Default q; T_rdelim]
+       | _ => [T_ldelim; kw pit_Case q] ++ sep_join [T_comma] (map tokens_of vals) ++ [T_rdelim]
+       end) ++ body_toks x ++ sw_toks r
+  | _ :: r => sw_toks r
+  end.
+Lemma cmd_toks_switch p v cases :
+  cmd_toks (NSwitch p v cases) = [T_ldelim; kw pit_Switch p] ++ tokens_of v ++ [T_rdelim] ++ sw_toks cases ++ close_tag pit_SwitchEnd.
+Proof.
+  reflexivity.
+Qed.
+
+Fixpoint params_toks (l : list node) : list tok :=
+  match l with
+  | [] => []
+  | NParamValue q key v :: r =>
+      [tk pit_LeftDelim q [123]; kw pit_Param 0; tk pit_Ident 0 key; T_colon] ++ tokens_of v ++ [T_rdelim_end] ++ params_toks r
+  | NParamContent q key x :: r =>
+      [tk pit_LeftDelim q [123]; kw pit_Param 0; tk pit_Ident 0 key; T_rdelim] ++ body_toks x ++ close_tag pit_ParamEnd ++ params_toks r
+  | _ :: r => params_toks r
+  end.
+Lemma cmd_toks_call p name alldata data params :
+  cmd_toks (NCall p name alldata data params) =
+  [T_ldelim; kw pit_Call p] ++ call_name_toks name ++
+  (if alldata then attr_toks v_data (dq v_all)
+   else match data with Some d => attr_toks v_data (dq (printed d)) | None => [] end) ++
+  (match params with
+   | [] => [T_rdelim_end]
+   | _ => [T_rdelim] ++ params_toks params ++ close_tag pit_CallEnd
+   end).
+Proof. reflexivity. Qed.
+
+(* ---- small facts about strings ---- *)
+Lemma go_quote_plain s : plain s -> go_quote s = Some (dq s).
+Proof.
+  unfold plain, go_quote, dq. intros H.
+  assert (E : opt_all (map quote_byte s) = Some (map (fun c => [c]) s)).
+  { induction s as [|c s IH]; [reflexivity|]. cbn [forallb] in H. apply andb_true_iff in H. destruct H as [Hc H].
+    cbn [map opt_all]. rewrite (IH H).
+    assert (Eq : quote_byte c = Some [c]).
+    { unfold plain_b in Hc. unfold quote_byte.
+      destruct (N.leb_spec 128 c); [lia|]. destruct (N.eqb_spec c 34); [subst; discriminate Hc|].
+      destruct (N.eqb_spec c 92); [subst; discriminate Hc|].
+      destruct (N.leb_spec 32 c); [|discriminate Hc]. destruct (N.ltb_spec c 127); [reflexivity|]. cbn in Hc. discriminate Hc. }
+    rewrite Eq. reflexivity. }
+  rewrite E. f_equal. cbn [app]. f_equal. f_equal. clear. induction s as [|c s IH]; [reflexivity|]. cbn [map concat_b app]. f_equal. exact IH.
+Qed.
+
+Lemma strip_sp s : strip_one space_encs (32 :: s) = Some s.
+Proof. reflexivity. Qed.
+Lemma trim_space_sp s : trim_space (32 :: s) = trim_space s.
+Proof. unfold trim_space, trim_left. cbn [length ltrim]. rewrite strip_sp. reflexivity. Qed.
+
+Lemma last_index_none c s : no_byte c s -> last_index_of c s = None.
+Proof.
+  unfold no_byte. induction s as [|x s IH]; [reflexivity|]. cbn [forallb last_index_of]. intros H.
+  apply andb_true_iff in H. destruct H as [Hx H]. rewrite (IH H). apply negb_true_iff in Hx. rewrite Hx. reflexivity.
+Qed.
+Lemma last_index_app c a b2 : no_byte c b2 -> last_index_of c (a ++ c :: b2) = Some (length a).
+Proof.
+  intros H. induction a as [|x a IH].
+  - cbn [app last_index_of length]. rewrite (last_index_none c b2 H), N.eqb_refl. reflexivity.
+  - cbn [app last_index_of length]. rewrite IH. reflexivity.
+Qed.
+Lemma take_app_len (a b2 : bstr) : take (length a) (a ++ b2) = a.
+Proof. induction a as [|x a IH]; [destruct b2; reflexivity|]. cbn [length app take]. f_equal. exact IH. Qed.
+Lemma drop_app_len (a b2 : bstr) : drop (length a) (a ++ b2) = b2.
+Proof. induction a as [|x a IH]; [reflexivity|]. cbn [length app drop]. exact IH. Qed.
+
+Lemma drop_S_app (a : bstr) c b2 : drop (S (length a)) (a ++ c :: b2) = b2.
+Proof. induction a as [|x a IH]; [reflexivity|]. cbn [length app]. exact IH. Qed.
+
+Section WfMirror.
+Variable lexq : bstr -> list tok.
+Variable nameok : bstr -> Prop.
+Notation wf_body := (wf_body lexq nameok).
+Notation wf_cmd := (wf_cmd lexq nameok).
+
+Fixpoint wf_conds (m : bool) (p : N) (first : bool) (l : list node) : Prop :=
   match l with
   | [] => first = false
-  | NIfCond q (Some c) x :: r => q = p /\ wf_expr c /\ wf_body x /\ wf_conds p false r
-  | NIfCond q None x :: r => first = false /\ q = p /\ wf_body x /\ r = []
+  | NIfCond q (Some c) x :: r => q = p /\ wf_expr c /\ wf_body m x /\ wf_conds m p false r
+  | NIfCond q None x :: r => first = false /\ q = p /\ wf_body m x /\ r = []
   | _ :: _ => False
   end.
+Fixpoint wf_cases (m : bool) (l : list node) : Prop :=
+  match l with
+  | [] => True
+  | NSwitchCase _ vals x :: r => allP wf_expr vals /\ (vals = [] -> r = []) /\ wf_body m x /\ wf_cases m r
+  | _ :: _ => False
+  end.
+Fixpoint wf_params (m : bool) (l : list node) : Prop :=
+  match l with
+  | [] => True
+  | NParamValue _ _ v :: r => wf_expr v /\ wf_params m r
+  | NParamContent _ _ x :: r => wf_body m x /\ wf_params m r
+  | _ :: _ => False
+  end.
+Lemma wf_cmd_call m p name alldata data params : wf_cmd m (NCall p name alldata data params) <->
+  call_name_ok name /\ nameok name /\
+  match data with
+  | Some d => alldata = false /\ quoted_ok lexq d /\ plain (printed d) /\ printed d <> v_all
+  | None => True
+  end /\ wf_params m params.
+Proof.
+  cbn [CmdSyntax.wf_cmd]. do 3 (apply and_iff_compat_l). induction params as [|c r IH]; [reflexivity|].
+  destruct c; try reflexivity; cbn [wf_params]; rewrite <- IH; reflexivity.
+Qed.
+Lemma wf_cmd_switch m p v cases : wf_cmd m (NSwitch p v cases) <-> m = false /\ wf_expr v /\ wf_cases m cases.
+Proof.
+  cbn [CmdSyntax.wf_cmd]. do 2 (apply and_iff_compat_l). induction cases as [|c r IH]; [reflexivity|].
+  destruct c; try reflexivity. cbn [wf_cases]. rewrite <- IH. reflexivity.
+Qed.
 
 Lemma cmd_toks_if p conds : cmd_toks (NIf p conds) = if_toks p true conds ++ close_tag pit_IfEnd.
 Proof.
   cbn [cmd_toks]. f_equal. generalize true. induction conds as [|c r IH]; intros first; [reflexivity|].
   destruct c; try apply IH. destruct cond; cbn [if_toks]; rewrite <- IH; reflexivity.
 Qed.
-Lemma wf_cmd_if p conds : wf_cmd (NIf p conds) <-> wf_conds p true conds.
+Lemma wf_cmd_if m p conds : wf_cmd m (NIf p conds) <-> m = false /\ wf_conds m p true conds.
 Proof.
-  cbn [wf_cmd]. generalize true. induction conds as [|c r IH]; intros first; [reflexivity|].
+  cbn [CmdSyntax.wf_cmd]. apply and_iff_compat_l. generalize true. induction conds as [|c r IH]; intros first; [reflexivity|].
   destruct c; try reflexivity. destruct cond; cbn [wf_conds].
   - rewrite <- IH. reflexivity.
   - reflexivity.
 Qed.
 
-Lemma wf_conds_cons p first c0 r : wf_conds p first (c0 :: r) ->
-  exists cd x, c0 = NIfCond p cd x /\ wf_body x /\
-    match cd with Some c => wf_expr c /\ wf_conds p false r | None => first = false /\ r = [] end.
+Lemma wf_conds_cons m p first c0 r : wf_conds m p first (c0 :: r) ->
+  exists cd x, c0 = NIfCond p cd x /\ wf_body m x /\
+    match cd with Some c => wf_expr c /\ wf_conds m p false r | None => first = false /\ r = [] end.
 Proof.
   destruct c0; try contradiction. destruct cond; cbn [wf_conds].
   - intros (-> & H1 & H2 & H3). do 2 eexists. split; [reflexivity|]. auto.
   - intros (H0 & -> & H2 & H3). do 2 eexists. split; [reflexivity|]. auto.
 Qed.
+
+End WfMirror.
 
 (* ---- size ---- *)
 Fixpoint csize (n : node) : nat :=
@@ -56,14 +169,38 @@ Fixpoint csize (n : node) : nat :=
   | NIf _ conds => S (list_sum (map csize conds))
   | NIfCond _ _ x => S (csize x)
   | NFor _ _ _ x ie => S (csize x + match ie with Some y => csize y | None => 0 end)
+  | NSwitch _ _ cases => S (list_sum (map csize cases))
+  | NSwitchCase _ _ x => S (csize x)
+  | NCall _ _ _ _ params => S (list_sum (map csize params))
+  | NParamContent _ _ x => S (csize x)
+  | NMsg _ _ _ _ children => S (S (list_sum (map csize children)))
+  | NMsgPlaceholder _ _ c => S (csize c)
   | _ => 1%nat
   end.
+
+Lemma csize_pos x : (1 <= csize x)%nat.
+Proof. destruct x; cbn [csize]; lia. Qed.
+Lemma unplz_size : forall l run,
+  (list_sum (map csize (unplz run l)) <= match run with [] => 0 | _ :: _ => 1 end + list_sum (map csize l))%nat.
+Proof.
+  induction l as [|x r IH]; intros run.
+  - cbn [unplz]. destruct run; cbn; lia.
+  - cbn [unplz]. destruct (is_textlike x).
+    + specialize (IH (run ++ [x])). pose proof (csize_pos x). cbn [map list_sum].
+      assert (E : (match run ++ [x] with [] => 0 | _ :: _ => 1 end = 1)%nat) by (destruct run; reflexivity). rewrite E in IH.
+      change (list_sum (csize x :: map csize r)) with (csize x + list_sum (map csize r))%nat. clear E. revert IH. generalize (list_sum (map csize (unplz (run ++ [x]) r))). intros k IH. destruct run; lia.
+    + specialize (IH []). rewrite map_app, list_sum_app. cbn [map list_sum].
+      assert (csize (unwrap x) <= csize x)%nat by (destruct x; cbn [unwrap csize]; lia).
+      change (list_sum (csize (unwrap x) :: map csize (unplz [] r))) with (csize (unwrap x) + list_sum (map csize (unplz [] r)))%nat.
+      change (list_sum (csize x :: map csize r)) with (csize x + list_sum (map csize r))%nat.
+      destruct run; cbn [run_node map]; [change (list_sum []) with 0%nat | change (list_sum [csize (NRawText (run_pos (n :: run)) (run_text (n :: run)))]) with 1%nat]; cbv iota in IH; lia.
+Qed.
 
 Lemma csize_if_cons p c r : csize (NIf p (c :: r)) = S (csize c + list_sum (map csize r)).
 Proof. reflexivity. Qed.
 
 (* ---- until lists that no command of a body can be mistaken for ---- *)
-Definition start_types : list N := expr_start_types ++ [pit_Debugger; pit_Log; pit_Let; pit_If; pit_For].
+Definition start_types : list N := expr_start_types ++ [pit_Debugger; pit_Log; pit_Let; pit_If; pit_For; pit_Switch; pit_Call; pit_Css; pit_Msg].
 Definition good_until (until : list N) : bool :=
   negb (one_of pit_LeftDelim until) && negb (one_of pit_Text until) && forallb (fun ty => negb (one_of ty until)) start_types.
 
@@ -81,47 +218,63 @@ Proof. unfold mem. rewrite existsb_exists. intros (x & Hx & E). apply N.eqb_eq i
 
 Ltac norm_app := repeat (rewrite <- !app_assoc; cbn [app]).
 
+Lemma last_is_default_snoc l q v vs x : last_is_default (l ++ [NSwitchCase q (v :: vs) x]) = false.
+Proof. unfold last_is_default. rewrite rev_app_distr. reflexivity. Qed.
+
 Section Main.
+Variable ns : bstr.
+Variable al : list (bstr * bstr).
 Variable inlen : N.
 Variable lexq : bstr -> list tok.
 Variable unq : bstr -> option bstr.
 Variable efuel : list tok -> nat.
+(* contracts of the external functions (see Proofs/CmdRoundtripCall.v) *)
+Hypothesis efuel_ok : forall ts e rest, Parses 0 ts e rest -> exists p', parse_expr (efuel ts) 0 (pst_init ts) = POk e p'.
+(* strconv.Unquote inverts strconv.Quote (fmt's %q), on the strings of the printer model's domain *)
+Hypothesis unq_quote : forall s q, go_quote s = Some q -> unq q = Some s.
 
-Notation Body := (Body inlen lexq unq efuel).
-Notation Loop := (Loop inlen lexq unq efuel).
-Notation Tag := (Tag inlen lexq unq efuel).
-Notation IfLoop := (IfLoop inlen lexq unq efuel).
-Notation IfCont := (IfCont inlen lexq unq efuel).
+(* the names that {call} resolves to themselves under the file's namespace and aliases *)
+Definition nameok (nm : bstr) : Prop := forall s, c_ns s = ns -> c_al s = al -> resolve_name s nm = nm.
+
+Notation Body := (Body ns al inlen lexq unq efuel).
+Notation Loop := (Loop ns al inlen lexq unq efuel).
+Notation Tag := (Tag ns al inlen lexq unq efuel).
+Notation IfLoop := (IfLoop ns al inlen lexq unq efuel).
+Notation IfCont := (IfCont ns al inlen lexq unq efuel).
+Notation CaseRun := (CaseRun ns al inlen lexq unq efuel).
+Notation SwLoop := (SwLoop ns al inlen lexq unq efuel).
+Notation wf_body := (wf_body lexq nameok).
+Notation wf_cmd := (wf_cmd lexq nameok).
+Notation wf_conds := (wf_conds lexq nameok).
+Notation wf_cases := (wf_cases lexq nameok).
+Notation wf_params := (wf_params lexq nameok).
+Notation ParamsRun := (ParamsRun ns al inlen lexq unq efuel).
 
 (* the statements proved together *)
-Definition BodyOK (x : node) : Prop :=
-  wf_body x -> forall until u rest, good_until until = true -> one_of (t_typ u) until = true ->
-  Body until (body_toks x ++ T_ldelim :: u :: rest) x u rest.
-Definition CmdOK (c : node) : Prop :=
-  wf_cmd c -> is_rawtext c = false -> forall l2,
-  exists k l, cmd_toks c ++ l2 = T_ldelim :: k :: l /\ In (t_typ k) start_types /\ Tag (k :: l) c l2.
+Definition BodyOK (m : bool) (x : node) : Prop :=
+  wf_body m x -> forall until u rest, good_until until = true -> one_of (t_typ u) until = true ->
+  Body m until (body_toks x ++ T_ldelim :: u :: rest) x u rest.
+Definition CmdOK (m : bool) (c : node) : Prop :=
+  wf_cmd m c -> is_rawtext c = false -> forall l2,
+  exists k l, cmd_toks c ++ l2 = T_ldelim :: k :: l /\ In (t_typ k) start_types /\ Tag m (k :: l) c l2.
 
 Section Step.
 Variable n : nat.
-Hypothesis IHB : forall x, (csize x <= n)%nat -> BodyOK x.
-Hypothesis IHC : forall c, (csize c <= n)%nat -> CmdOK c.
+Hypothesis IHB : forall m x, (csize x <= n)%nat -> BodyOK m x.
+Hypothesis IHC : forall m c, (csize c <= n)%nat -> CmdOK m c.
 
 (* the list of a body *)
-Lemma loop_chain until u rest : good_until until = true -> one_of (t_typ u) until = true ->
-  forall ns acc pos, allP wf_cmd ns -> no_adjacent_text ns -> (forall c, In c ns -> (csize c <= n)%nat) ->
-  Loop until pos acc (concat (map cmd_toks ns) ++ T_ldelim :: u :: rest)
-       (NList (match pos with Some p => p | None => first_pos (concat (map cmd_toks ns) ++ [T_ldelim]) end) (acc ++ ns)) u rest.
+Lemma loop_chain m until u rest : good_until until = true -> one_of (t_typ u) until = true ->
+  forall cs acc pos, allP (wf_cmd m) cs -> no_adjacent_text cs -> (forall c, In c cs -> (csize c <= n)%nat) ->
+  Loop m until pos acc (concat (map cmd_toks cs) ++ T_ldelim :: u :: rest)
+       (NList (match pos with Some p => p | None => first_pos (concat (map cmd_toks cs) ++ [T_ldelim]) end) (acc ++ cs)) u rest.
 Proof.
-  intros Hg Hu. induction ns as [|c r IH]; intros acc pos Hw Hadj Hsz.
+  intros Hg Hu. induction cs as [|c r IH]; intros acc pos Hw Hadj Hsz.
   - cbn [map concat app]. rewrite app_nil_r.
     replace (match pos with Some p => p | None => first_pos [T_ldelim] end) with (pos_or pos T_ldelim) by (destruct pos; reflexivity).
     apply Loop_halt; [reflexivity | apply good_until_ld, Hg | exact Hu].
   - destruct Hw as [Hwc Hw]. destruct Hadj as [Hadj1 Hadj].
     assert (Hszr : forall c', In c' r -> (csize c' <= n)%nat) by (intros c' H'; apply Hsz; now right).
-    (* what follows c starts with "{" *)
-    assert (Hnext : forall l2', exists k' l', concat (map cmd_toks r) ++ T_ldelim :: l2' = T_ldelim :: k' :: l' \/ True).
-    { intros. exists T_ldelim, []. now right. }
-    clear Hnext.
     cbn [map concat]. rewrite <- app_assoc.
     destruct (is_rawtext c) eqn:Ert.
     + destruct c; try discriminate Ert. cbn [cmd_toks app]. destruct Hwc as [Hne Hrun].
@@ -130,7 +283,7 @@ Proof.
       { destruct r as [|c' r'].
         - cbn [map concat app]. do 2 eexists. split; reflexivity.
         - destruct Hw as [Hwc' _]. cbn [is_rawtext andb] in Hadj1.
-          destruct (IHC c' (Hszr c' (or_introl eq_refl)) Hwc' Hadj1 (concat (map cmd_toks r') ++ T_ldelim :: u :: rest)) as (k' & l' & E' & _).
+          destruct (IHC m c' (Hszr c' (or_introl eq_refl)) Hwc' Hadj1 (concat (map cmd_toks r') ++ T_ldelim :: u :: rest)) as (k' & l' & E' & _).
           cbn [map concat]. rewrite <- app_assoc, E'. do 2 eexists. split; reflexivity. }
       destruct Hnx as (nx & l' & Enx & Hnxt). specialize (IH (acc ++ [NRawText p text]) (Some (pos_or pos (tk pit_Text p text))) Hw Hadj Hszr).
       rewrite Enx in *. rewrite <- app_assoc in IH. cbn [app] in IH.
@@ -139,21 +292,21 @@ Proof.
       eapply Loop_text with (tv := text); [reflexivity | apply good_until_text, Hg | | | exact Hrun | exact Hne | exact IH].
       * rewrite Hnxt. vm_compute. discriminate.
       * rewrite Hnxt. vm_compute. discriminate.
-    + destruct (IHC c (Hsz c (or_introl eq_refl)) Hwc Ert (concat (map cmd_toks r) ++ T_ldelim :: u :: rest)) as (k & l & E & Hst & HT).
-      destruct (IHC c (Hsz c (or_introl eq_refl)) Hwc Ert []) as (k0 & l0 & E0 & _). rewrite app_nil_r in E0.
+    + destruct (IHC m c (Hsz c (or_introl eq_refl)) Hwc Ert (concat (map cmd_toks r) ++ T_ldelim :: u :: rest)) as (k & l & E & Hst & HT).
+      destruct (IHC m c (Hsz c (or_introl eq_refl)) Hwc Ert []) as (k0 & l0 & E0 & _). rewrite app_nil_r in E0.
       assert (Hfp : forall X, first_pos ((cmd_toks c ++ X) ++ [T_ldelim]) = 0) by (intros; rewrite E0; reflexivity).
       rewrite Hfp. rewrite E. specialize (IH (acc ++ [c]) (Some (pos_or pos T_ldelim)) Hw Hadj Hszr). rewrite <- app_assoc in IH. cbn [app] in IH.
       change (match pos with Some p => p | None => 0 end) with (pos_or pos T_ldelim).
       eapply Loop_tag; [reflexivity | apply good_until_ld, Hg | apply (good_until_start _ _ Hg Hst) | exact HT | exact IH].
 Qed.
 
-Lemma body_step x : (csize x <= S n)%nat -> BodyOK x.
+Lemma body_step m x : (csize x <= S n)%nat -> BodyOK m x.
 Proof.
   intros Hsz Hwf until u rest Hg Hu. destruct x; try contradiction. destruct Hwf as (Hp & Hw & Hadj).
   cbn [body_toks]. apply Body_of_Loop.
   assert (Hin : forall c, In c nodes -> (csize c <= n)%nat).
   { intros c Hc. cbn [csize] in Hsz. pose proof (list_sum_In csize c nodes Hc). lia. }
-  pose proof (loop_chain until u rest Hg Hu nodes [] None Hw Hadj Hin) as HL. cbn [app] in HL.
+  pose proof (loop_chain m until u rest Hg Hu nodes [] None Hw Hadj Hin) as HL. cbn [app] in HL.
   replace (first_pos (concat (map cmd_toks nodes) ++ [T_ldelim])) with p in HL; [exact HL|].
   rewrite Hp. destruct (concat (map cmd_toks nodes)) eqn:E; [|reflexivity].
   (* an empty item sequence: the list is empty, its position is that of "{" *)
@@ -161,14 +314,14 @@ Proof.
 Qed.
 
 (* the conditions of an {if} after the first *)
-Lemma if_rest p l2 : forall r done, wf_conds p false r -> (forall c, In c r -> (csize c <= S n)%nat) ->
+Lemma if_rest p l2 : forall r done, wf_conds false p false r -> (forall c, In c r -> (csize c <= S n)%nat) ->
   exists u l2', if_toks p false r ++ close_tag pit_IfEnd ++ l2 = T_ldelim :: u :: l2' /\ one_of (t_typ u) u_if = true /\
     IfCont p done false u l2' (NIf p (done ++ r)) l2.
 Proof.
   induction r as [|c0 r IH]; intros done Hw Hsz.
   - cbn [if_toks app close_tag]. do 2 eexists. split; [reflexivity|]. split; [reflexivity|].
     right. right. split; [reflexivity|]. exists T_rdelim. rewrite app_nil_r. repeat split; reflexivity.
-  - destruct (wf_conds_cons _ _ _ _ Hw) as (cd & x & -> & Hwx & Hcd). destruct cd as [c|].
+  - destruct (wf_conds_cons _ _ _ _ _ _ _ Hw) as (cd & x & -> & Hwx & Hcd). destruct cd as [c|].
     + destruct Hcd as [Hwc Hwr]. cbn [if_toks app]. do 2 eexists. split; [reflexivity|]. split; [reflexivity|].
       left. split; [reflexivity|].
       assert (Hszr : forall c', In c' r -> (csize c' <= S n)%nat) by (intros c' H'; apply Hsz; now right).
@@ -188,7 +341,7 @@ Proof.
       * right. right. split; [reflexivity|]. exists T_rdelim. repeat split; reflexivity.
 Qed.
 
-Lemma ok_print p arg dirs : CmdOK (NPrint p arg dirs).
+Lemma ok_print m p arg dirs : CmdOK m (NPrint p arg dirs).
 Proof.
   intros Hwf Hrt l2. destruct Hwf as [Hwp Hp]. pose proof Hwp as [Hwa Hwd].
   destruct (show_starts_expression sty_min arg Hwa [0%nat] (sty_min [0%nat])) as (x & lx & Ex & Hx).
@@ -199,7 +352,7 @@ Proof.
   - eapply Tag_print; [exact Hwp | exact Hp | exact E].
 Qed.
 
-Lemma ok_log p x : (csize (NLog p x) <= S n)%nat -> CmdOK (NLog p x).
+Lemma ok_log m p x : (csize (NLog p x) <= S n)%nat -> CmdOK m (NLog p x).
 Proof.
   intros Hsz Hwf Hrt l2. cbn [cmd_toks app]. do 2 eexists. split; [reflexivity|]. split; [cbn; tauto|].
   norm_app. cbn [close_tag app].
@@ -207,17 +360,17 @@ Proof.
   apply IHB; [cbn [csize] in Hsz; lia | exact Hwf | reflexivity | reflexivity].
 Qed.
 
-Lemma ok_debugger p : CmdOK (NDebugger p).
+Lemma ok_debugger m p : CmdOK m (NDebugger p).
 Proof.
   intros Hwf Hrt l2. cbn [cmd_toks app]. do 2 eexists. split; [reflexivity|]. split; [cbn; tauto|].
   apply Tag_debugger; reflexivity.
 Qed.
 
-Lemma ok_if p conds : (csize (NIf p conds) <= S n)%nat -> CmdOK (NIf p conds).
+Lemma ok_if m p conds : (csize (NIf p conds) <= S n)%nat -> CmdOK m (NIf p conds).
 Proof.
   intros Hsz Hwf Hrt l2.
-  apply wf_cmd_if in Hwf. rewrite cmd_toks_if. destruct conds as [|c0 r]; [discriminate Hwf|].
-  destruct (wf_conds_cons _ _ _ _ Hwf) as (cd & body & -> & Hwx & Hcd).
+  apply wf_cmd_if in Hwf. destruct Hwf as [-> Hwf]. rewrite cmd_toks_if. destruct conds as [|c0 r]; [discriminate Hwf|].
+  destruct (wf_conds_cons _ _ _ _ _ _ _ Hwf) as (cd & body & -> & Hwx & Hcd).
   destruct cd as [c|]; [|destruct Hcd as [Hf _]; discriminate Hf].
   destruct Hcd as [Hwc Hwr]. cbn [if_toks app]. do 2 eexists. split; [reflexivity|]. split; [cbn; tauto|].
   rewrite csize_if_cons in Hsz.
@@ -232,10 +385,10 @@ Proof.
     cbn [csize] in Hsz. lia.
 Qed.
 
-Lemma ok_for p var lst x ie : (csize (NFor p var lst x ie) <= S n)%nat -> CmdOK (NFor p var lst x ie).
+Lemma ok_for m p var lst x ie : (csize (NFor p var lst x ie) <= S n)%nat -> CmdOK m (NFor p var lst x ie).
 Proof.
   intros Hsz Hwf Hrt l2.
-  destruct Hwf as (Hwl & Hwx & Hwie). cbn [cmd_toks app]. do 2 eexists. split; [reflexivity|]. split; [cbn; tauto|].
+  destruct Hwf as (-> & Hwl & Hwx & Hwie). cbn [cmd_toks app]. do 2 eexists. split; [reflexivity|]. split; [cbn; tauto|].
   destruct ie as [y|].
   - norm_app. cbn [close_tag app].
     eapply Tag_for with (c := 36) (rd := T_rdelim) (u := kw pit_Ifempty 0);
@@ -253,7 +406,7 @@ Proof.
     + right. split; [vm_compute; discriminate|]. exists T_rdelim. repeat split; reflexivity.
 Qed.
 
-Lemma ok_let_value p name e : CmdOK (NLetValue p name e).
+Lemma ok_let_value m p name e : CmdOK m (NLetValue p name e).
 Proof.
   intros Hwf Hrt l2. cbn [cmd_toks app]. do 2 eexists. split; [reflexivity|]. split; [cbn; tauto|].
   norm_app.
@@ -261,7 +414,7 @@ Proof.
   apply parse_show; [exact Hwf | reflexivity].
 Qed.
 
-Lemma ok_let_content p name x : (csize (NLetContent p name x) <= S n)%nat -> CmdOK (NLetContent p name x).
+Lemma ok_let_content m p name x : (csize (NLetContent p name x) <= S n)%nat -> CmdOK m (NLetContent p name x).
 Proof.
   intros Hsz Hwf Hrt l2. cbn [cmd_toks app]. do 2 eexists. split; [reflexivity|]. split; [cbn; tauto|].
   norm_app. cbn [close_tag app].
@@ -269,31 +422,197 @@ Proof.
   apply IHB; [cbn [csize] in Hsz; lia | exact Hwf | reflexivity | reflexivity].
 Qed.
 
-Lemma cmd_step c : (csize c <= S n)%nat -> CmdOK c.
+(* ---- {switch} ---- *)
+(* the values of a {case}: e1, e2, ... } body *)
+Lemma case_vals m t x u l2 : t_typ t <> pit_Default ->
+  Body m u_case (body_toks x ++ T_ldelim :: u :: l2) x u l2 ->
+  forall vals done, vals <> [] -> allP wf_expr vals ->
+  CaseRun m t done (sep_join [T_comma] (map tokens_of vals) ++ T_rdelim :: body_toks x ++ T_ldelim :: u :: l2)
+          (NSwitchCase (t_pos t) (done ++ vals) x) (u :: l2).
+Proof.
+  intros Ht HB. induction vals as [|v vs IH]; intros done Hne Hw; [contradiction Hne; reflexivity|].
+  destruct Hw as [Hwv Hw]. destruct vs as [|v2 vs].
+  - cbn [map sep_join]. eapply Case_last with (rd := T_rdelim); [exact Ht | | reflexivity | exact HB].
+    apply parse_show; [exact Hwv | reflexivity].
+  - change (sep_join [T_comma] (map tokens_of (v :: v2 :: vs))) with (tokens_of v ++ [T_comma] ++ sep_join [T_comma] (map tokens_of (v2 :: vs))).
+    norm_app. eapply Case_more with (v := v) (c := T_comma); [exact Ht | | reflexivity |].
+    + apply parse_show; [exact Hwv | reflexivity].
+    + specialize (IH (done ++ [v]) ltac:(discriminate) Hw). rewrite <- app_assoc in IH. exact IH.
+Qed.
+
+Lemma sw_chain m p endt v l2 : (endt = pit_SwitchEnd \/ endt = pit_PluralEnd) ->
+  forall cases done, wf_cases m cases -> (forall c, In c cases -> (csize c <= S n)%nat) ->
+  (cases <> [] -> last_is_default done = false) ->
+  exists u l', sw_toks cases ++ close_tag endt ++ l2 = T_ldelim :: u :: l' /\ one_of (t_typ u) u_case = true /\
+    SwLoop m p endt v done (u :: l') (NSwitch p v (done ++ cases)) l2.
+Proof.
+  intros He. induction cases as [|c r IH]; intros done Hw Hsz Hld.
+  - cbn [sw_toks app close_tag]. do 2 eexists. split; [reflexivity|]. split; [destruct He as [-> | ->]; reflexivity|].
+    rewrite app_nil_r. apply SwLoop_end; [reflexivity | exact He | reflexivity].
+  - destruct c; try (exfalso; exact Hw). destruct Hw as (Hwv & Hlast & Hwx & Hwr). rename c into body.
+    assert (Hszx : (csize body <= n)%nat) by (specialize (Hsz _ (or_introl eq_refl)); cbn [csize] in Hsz; lia).
+    assert (Hszr : forall c', In c' r -> (csize c' <= S n)%nat) by (intros c' H'; apply Hsz; now right).
+    specialize (Hld ltac:(discriminate)).
+    destruct values as [|v1 vs].
+    + (* {default}: the last case *)
+      rewrite (Hlast eq_refl) in *. cbn [sw_toks app]. do 2 eexists. split; [reflexivity|]. split; [reflexivity|].
+      destruct (IH (done ++ [NSwitchCase p0 [] body]) I Hszr ltac:(intros H; contradiction H; reflexivity)) as (u' & l'' & E' & Hu' & HL').
+      rewrite <- app_assoc in HL'. cbn [app] in HL'.
+      norm_app. cbn [sw_toks app] in E'. cbn [app]. rewrite E'.
+      eapply SwLoop_case; [right; reflexivity | exact Hld | | exact HL'].
+      change p0 with (t_pos (kw pit_Default p0)).
+      eapply Case_default; [reflexivity | reflexivity |].
+      apply IHB; [exact Hszx | exact Hwx | reflexivity | exact Hu'].
+    + cbn [sw_toks]. set (vals := v1 :: vs) in *. cbn [app]. do 2 eexists. split; [reflexivity|]. split; [reflexivity|].
+      destruct (IH (done ++ [NSwitchCase p0 vals body]) Hwr Hszr ltac:(intros _; apply last_is_default_snoc)) as (u' & l'' & E' & Hu' & HL').
+      rewrite <- app_assoc in HL'. cbn [app] in HL'.
+      norm_app. rewrite E'.
+      eapply SwLoop_case; [left; reflexivity | exact Hld | | exact HL'].
+      change p0 with (t_pos (kw pit_Case p0)).
+      apply (case_vals m (kw pit_Case p0) body u' l'' ltac:(vm_compute; discriminate)
+               ltac:(apply IHB; [exact Hszx | exact Hwx | reflexivity | exact Hu']) vals [] ltac:(discriminate) Hwv).
+Qed.
+
+Lemma ok_switch m p v cases : (csize (NSwitch p v cases) <= S n)%nat -> CmdOK m (NSwitch p v cases).
+Proof.
+  intros Hsz Hwf Hrt l2. apply wf_cmd_switch in Hwf. destruct Hwf as (-> & Hwv & Hwc).
+  rewrite cmd_toks_switch. cbn [app]. do 2 eexists. split; [reflexivity|]. split; [cbn; tauto|].
+  assert (Hszr : forall c', In c' cases -> (csize c' <= S n)%nat).
+  { intros c' H'. cbn [csize] in Hsz. pose proof (list_sum_In csize c' cases H'). lia. }
+  destruct (sw_chain false p pit_SwitchEnd v l2 (or_introl eq_refl) cases [] Hwc Hszr ltac:(reflexivity)) as (u & l' & E & Hu & HL).
+  cbn [app] in HL. norm_app. rewrite E.
+  eapply Tag_switch with (v := v) (rd := T_rdelim); [reflexivity | | reflexivity |].
+  - apply parse_show; [exact Hwv | reflexivity].
+  - apply SwLoop_ld; [reflexivity | exact HL].
+Qed.
+
+(* ---- {call} ---- *)
+Lemma params_chain m l2 : forall params done, wf_params m params -> (forall c, In c params -> (csize c <= S n)%nat) ->
+  ParamsRun m done (params_toks params ++ close_tag pit_CallEnd ++ l2) (done ++ params) (close_tag pit_CallEnd ++ l2).
+Proof.
+  induction params as [|c r IH]; intros done Hw Hsz.
+  - cbn [params_toks app close_tag]. rewrite app_nil_r. apply Params_end; [exact efuel_ok | reflexivity | reflexivity].
+  - assert (Hszr : forall c', In c' r -> (csize c' <= S n)%nat) by (intros c' H'; apply Hsz; now right).
+    destruct c; try (exfalso; exact Hw).
+    + destruct Hw as [Hwv Hwr]. cbn [params_toks app]. norm_app.
+      specialize (IH (done ++ [NParamValue p key c]) Hwr Hszr). rewrite <- app_assoc in IH. cbn [app] in IH.
+      eapply Params_value with (ld := tk pit_LeftDelim p [123]) (key := tk pit_Ident 0 key) (rde := T_rdelim_end);
+        [exact efuel_ok | reflexivity | reflexivity | reflexivity | reflexivity | | reflexivity | exact IH].
+      apply parse_show; [exact Hwv | reflexivity].
+    + destruct Hw as [Hwx Hwr]. cbn [params_toks app]. norm_app. cbn [close_tag app].
+      specialize (IH (done ++ [NParamContent p key c]) Hwr Hszr). rewrite <- app_assoc in IH. cbn [app] in IH.
+      eapply Params_content with (ld := tk pit_LeftDelim p [123]) (key := tk pit_Ident 0 key) (u := kw pit_ParamEnd 0) (rd2 := T_rdelim);
+        [exact efuel_ok | reflexivity | reflexivity | reflexivity | reflexivity | | reflexivity | exact IH].
+      apply IHB; [|exact Hwx | reflexivity | reflexivity].
+      specialize (Hsz _ (or_introl eq_refl)). cbn [csize] in Hsz. lia.
+Qed.
+
+Lemma ok_call m p name alldata data params : (csize (NCall p name alldata data params) <= S n)%nat -> CmdOK m (NCall p name alldata data params).
+Proof.
+  intros Hsz Hwf Hrt l2. apply wf_cmd_call in Hwf. destruct Hwf as (Hnm & Hres & Hdata & Hwp).
+  destruct Hnm as (first & r1 & segs & Hsp & Hf).
+  assert (En : name = first ++ r1 ++ List.concat segs).
+  { pose proof (split_dots_concat name []) as Hc. rewrite Hsp in Hc. cbn [List.concat app] in Hc. symmetry. exact Hc. }
+  rewrite cmd_toks_call. cbn [app]. do 2 eexists. split; [reflexivity|]. split; [cbn; tauto|].
+  assert (Hall : unq (dq v_all) = Some v_all) by (apply unq_quote, go_quote_plain; vm_compute; reflexivity).
+  assert (Hcd : call_data lexq unq
+                  (if alldata then attr_toks v_data (dq v_all) else match data with Some d => attr_toks v_data (dq (printed d)) | None => [] end)
+                  alldata (if alldata then None else data) /\ (if alldata then None else data) = data).
+  { destruct alldata.
+    - split; [apply cd_all, Hall|]. destruct data as [d|]; [destruct Hdata as [E _]; discriminate E|reflexivity].
+    - split; [|reflexivity]. destruct data as [d|]; [|apply cd_none].
+      destruct Hdata as (_ & (Hwd & sd & t & Hpr & Hlex & Hcl) & Hpl & Hne).
+      apply cd_expr with (rest := [t]); [apply unq_quote, go_quote_plain, Hpl | exact Hne |].
+      unfold printed. rewrite Hpr, Hlex. apply parse_show; [exact Hwd | exact Hcl]. }
+  destruct Hcd as [Hcd Ed]. rewrite Ed in Hcd. clear Ed.
+  unfold call_name_toks. rewrite <- app_assoc. subst name.
+  destruct params as [|c r].
+  - norm_app. apply Tag_call_self; [exact efuel_ok | reflexivity | exact Hf | exact Hsp | exact Hcd | reflexivity | reflexivity | exact Hres].
+  - set (params := c :: r) in *. change (match params with [] => [T_rdelim_end] | _ :: _ => [T_rdelim] ++ params_toks params ++ close_tag pit_CallEnd end)
+      with ([T_rdelim] ++ params_toks params ++ close_tag pit_CallEnd). norm_app.
+    assert (Hszp : forall c', In c' params -> (csize c' <= S n)%nat).
+    { intros c' H'. cbn [csize] in Hsz. pose proof (list_sum_In csize c' params H'). lia. }
+    pose proof (params_chain m l2 params [] Hwp Hszp) as HPR. cbn [app] in HPR.
+    eapply Tag_call_params with (ld := T_ldelim) (ce := kw pit_CallEnd 0) (rd := T_rdelim);
+      [exact efuel_ok | reflexivity | exact Hf | exact Hsp | exact Hcd | reflexivity | reflexivity | exact Hres | exact HPR | reflexivity | reflexivity | reflexivity].
+Qed.
+
+(* ---- {msg} ---- *)
+Lemma ok_msg m p id meaning desc children : (csize (NMsg p id meaning desc children) <= S n)%nat -> CmdOK m (NMsg p id meaning desc children).
+Proof.
+  intros Hsz Hwf Hrt l2. destruct (proj1 (wf_cmd_msg lexq nameok _ _ _ _ _ _) Hwf) as (Em & Eid & Hqm & Hqd & Hwc). subst m id. clear Hwf.
+  rewrite cmd_toks_msg. cbn [app]. do 2 eexists. split; [reflexivity|]. split; [cbn; tauto|].
+  set (ns0 := unplz [] children).
+  set (contents := NList (first_pos (List.concat (map cmd_toks ns0))) ns0).
+  assert (Hwb : wf_body true contents).
+  { split; [reflexivity|]. split; [apply unplz_wf, Hwc | apply (unplz_no_adjacent lexq nameok), Hwc]. }
+  assert (Etoks : msg_toks [] children = body_toks contents) by (symmetry; apply (unplz_toks lexq nameok), Hwc).
+  assert (Eplz : plz_children (children_of contents) = children) by (apply (plz_unplz lexq nameok children [] Hwc)).
+  assert (Hcs : (csize contents <= n)%nat).
+  { pose proof (unplz_size children []). cbn [csize] in Hsz |- *. fold ns0 in H. cbv iota in H. unfold contents. cbn [csize]. lia. }
+  assert (Hat : msg_attrs unq ((match meaning with [] => [] | _ :: _ => attr_toks v_meaning (quoted_attr meaning) end) ++ attr_toks v_desc (quoted_attr desc))
+                          meaning desc).
+  { unfold quoted_attr. destruct (go_quote desc) as [qd|] eqn:Ed; [|contradiction Hqd; reflexivity].
+    destruct meaning as [|c0 mn]; [apply ma_desc, unq_quote, Ed|].
+    destruct (go_quote (c0 :: mn)) as [qm|] eqn:Em; [|contradiction Hqm; reflexivity].
+    apply ma_both; apply unq_quote; assumption. }
+  rewrite Etoks. rewrite <- Eplz at 1. norm_app. rewrite (app_assoc _ (attr_toks v_desc (quoted_attr desc))).
+  cbn [close_tag app].
+  eapply Tag_msg with (u := kw pit_MsgEnd 0) (rd := T_rdelim) (rd2 := T_rdelim);
+    [reflexivity | exact Hat | reflexivity | | reflexivity | rewrite Eplz; apply (wf_children_no_plural lexq nameok children [] Hwc)].
+  apply IHB; [exact Hcs | exact Hwb | reflexivity | reflexivity].
+Qed.
+
+(* ---- {css} ---- *)
+Lemma ok_css m p e suffix : CmdOK m (NCss p e suffix).
+Proof.
+  intros Hwf Hrt l2. destruct Hwf as (Hno & Htrim & He). cbn [cmd_toks app]. do 2 eexists. split; [reflexivity|]. split; [cbn; tauto|].
+  destruct e as [x|].
+  - destruct He as ((Hwx & sx & t & Hpr & Hlex & Hcl) & Htx). unfold css_text, printed in *. rewrite Hpr in *.
+    pose proof (Tag_css_expr ns al inlen lexq unq efuel efuel_ok m (kw pit_Css p) (tk pit_Text 0 (sx ++ [44; 32] ++ suffix)) T_rdelim l2
+                  (length sx) x [t] eq_refl eq_refl eq_refl eq_refl) as HT.
+    cbn [t_val tk] in HT. cbn [app] in HT.
+    rewrite (last_index_app 44 sx (32 :: suffix)) in HT by (unfold no_byte in *; cbn [forallb]; rewrite Hno; reflexivity).
+    specialize (HT eq_refl). change (sx ++ 44 :: 32 :: suffix) with (sx ++ [44] ++ 32 :: suffix) in HT.
+    rewrite take_app_len in HT. rewrite Htx in HT. rewrite Hlex in HT.
+    specialize (HT (parse_show sty_min [] x t [] Hwx Hcl)).
+    change (sx ++ [44] ++ 32 :: suffix) with (sx ++ 44 :: 32 :: suffix) in HT. rewrite drop_S_app in HT.
+    rewrite trim_space_sp, Htrim in HT. exact HT.
+  - unfold css_text.
+    pose proof (Tag_css_plain ns al inlen lexq unq efuel m (kw pit_Css p) (tk pit_Text 0 suffix) T_rdelim l2 eq_refl eq_refl eq_refl
+                  (last_index_none 44 suffix Hno)) as HT.
+    cbn [t_val tk] in HT. rewrite Htrim in HT. exact HT.
+Qed.
+
+Lemma cmd_step m c : (csize c <= S n)%nat -> CmdOK m c.
 Proof.
   intros Hsz. destruct c; try (intros Hwf; contradiction Hwf).
   - intros _ Hrt. discriminate Hrt.
   - apply ok_print.
+  - apply ok_css.
   - apply ok_log, Hsz.
   - apply ok_debugger.
   - apply ok_if, Hsz.
   - apply ok_for, Hsz.
+  - apply ok_switch, Hsz.
+  - apply ok_call, Hsz.
   - apply ok_let_value.
   - apply ok_let_content, Hsz.
+  - apply ok_msg, Hsz.
 Qed.
 End Step.
 
-Theorem body_cmd_ok : forall n, (forall x, (csize x <= n)%nat -> BodyOK x) /\ (forall c, (csize c <= n)%nat -> CmdOK c).
+Theorem body_cmd_ok : forall n, (forall m x, (csize x <= n)%nat -> BodyOK m x) /\ (forall m c, (csize c <= n)%nat -> CmdOK m c).
 Proof.
   induction n as [|n [IHB IHC]].
-  - split; intros x Hx; destruct x; cbn [csize] in Hx; lia.
-  - split; [apply body_step | apply cmd_step]; assumption.
+  - split; intros m x Hx; destruct x; cbn [csize] in Hx; lia.
+  - split; intros m x; [apply body_step | apply cmd_step]; assumption.
 Qed.
 
 (* C17 extended to template bodies: the items of a well-formed body, followed by "{" and an
    item u that ends the list, are read as that body; the parser has then consumed "{" and u *)
-Theorem parse_body_roundtrip x until u rest :
-  wf_body x -> good_until until = true -> one_of (t_typ u) until = true ->
-  Body until (body_toks x ++ T_ldelim :: u :: rest) x u rest.
-Proof. intros. apply (proj1 (body_cmd_ok (csize x)) x (le_n _)); assumption. Qed.
+Theorem parse_body_roundtrip m x until u rest :
+  wf_body m x -> good_until until = true -> one_of (t_typ u) until = true ->
+  Body m until (body_toks x ++ T_ldelim :: u :: rest) x u rest.
+Proof. intros. apply (proj1 (body_cmd_ok (csize x)) m x (le_n _)); assumption. Qed.
 End Main.
